@@ -100,6 +100,28 @@ CHECKS = {
         "note": "math.comb = Pascal binomial; the instance cache is an association list; axioms: none.",
         "design": "5/C09",
     },
+    "C10": {
+        "text": ("Theorems over choice trees (one RNG.choices question at a time, answered fairly): h.roll() returns o with "
+                 "probability h[o]/total (0 for zero-count outcomes; 0 is returned without a question for zero-total "
+                 "histograms), p.roll() returns each sorted roll with probability brute-force count/total = the counts "
+                 "rolls_with_counts enumerates (C02), asking exactly one question per die with that die's own outcomes "
+                 "and weights. Correspondence: a scripted random.Random installed as dyce.rng.RNG explores EVERY "
+                 "positive-weight answer sequence; questions and results must equal the model's scripted run; generator "
+                 "installed after import and swapped between calls; equally seeded generators reproduce."),
+        "note": "PARTIAL: the fairness of random.Random.choices is the stated assumption (the chooser is an oracle); axioms: none.",
+        "design": "5/C10",
+    },
+    "C11": {
+        "text": ("Theorem: for every roller tree (value, pool, repeat, binary/unary, selection, filter, substitution with "
+                 "REPLACE/APPEND and any depth; operators, predicates and expansions arbitrary functions) and every "
+                 "observable of the roll, the expectation under a fair random source equals the expectation under the "
+                 "enumeration of the same expression with exact probabilities, failures included; the enumeration has "
+                 "mass one. Correspondence: every positive-weight answer path of generated trees, questions asked and "
+                 "outcome values (tombstones included) against the scripted model run, and the induced exact distribution "
+                 "against an independent enumerator."),
+        "note": "PARTIAL: fairness of random.Random.choices assumed; substitution expansions restricted to keep / fixed outcome / re-roll the source; axioms: none.",
+        "design": "5/C11",
+    },
     "C14": {
         "text": ("Theorems over the interpreter model with the ContextVar as threaded state and an injected exception at "
                  "an arbitrary callback invocation index: the context is restored after every call (normal or "
